@@ -31,7 +31,9 @@ EXTENDS Integers, Sequences, FiniteSets, TLC, Json
 
 CONSTANTS Routers,      \* router names
           SyncRouters,  \* routers for which the driver can fabricate an acceptable next header
-          Gen,          \* well-formed genesis ids (different trust roots), e.g. {"g1", "g2"}
+          Gen,          \* well-formed genesis ids (different trust roots): "g1", "g2" (same height, different data) and
+                        \* "ghi" (another root at a height above everything the sync steps reach), so that a later attempt
+                        \* comes at an equal height, above the synced tip (g1 .. ghi) and below the first root (ghi .. g1)
           Bad,          \* malformed genesis ids (rejected by every router in every state)
           Shape,        \* [Routers -> {"guard", "overwrite", "noop", "any"}]
           D,            \* behaviour length for P-REPLAY generation
